@@ -394,26 +394,32 @@ Qed.
 
 (* --------------------------------------------------------------- T1 (runs) *)
 
+(* a call that was let through either ran its request (once) or is an Allow that returned nil:
+   the returned VALUE may well be ErrServiceUnavailable (the request's own), but then the
+   request ran *)
 Lemma result_of_not_reject : forall e o,
-  result_of e o <> RUnavailable /\ result_of e o <> RFallback.
-Proof. intros e o. unfold result_of. destruct e, o; cbn; split; discriminate. Qed.
+  is_allow e = true -> result_of e o <> RUnavailable /\ result_of e o <> RFallback.
+Proof. intros e o H. unfold result_of. rewrite H. split; discriminate. Qed.
 
 Lemma rejected_iff : forall v, rejected v = true <-> v = VReject.
 Proof. destruct v; cbn; split; intros; try discriminate; reflexivity. Qed.
 
-(* the result class identifies a rejection *)
+(* what identifies a rejection from outside: ErrServiceUnavailable / the fallback's value came
+   back AND the request did not run *)
 Lemma unavailable_is_reject : forall cfg w c,
   let o := snd (step cfg w c) in
-  (o_res o = RUnavailable \/ o_res o = RFallback) <-> o_verdict o = Some VReject.
+  ((o_res o = RUnavailable \/ o_res o = RFallback) /\ o_req o = 0) <-> o_verdict o = Some VReject.
 Proof.
   intros cfg w c. rewrite step_unfold. cbn zeta.
-  destruct (result_of_not_reject (k_entry c) (k_out c)) as (N1 & N2).
   destruct (k_ctx c).
-  1,2: match goal with |- context [rejected ?v] => destruct (rejected v) eqn:E end; cbn [snd o_res o_verdict].
+  1,2: match goal with |- context [rejected ?v] => destruct (rejected v) eqn:E end; cbn [snd o_res o_verdict o_req].
   1,3: apply rejected_iff in E; rewrite E; split; [reflexivity|]; intros _;
        destruct (has_fallback (k_entry c)); auto.
-  1,2: split; [intros [H|H]; contradiction|]; intros H; inversion H as [H']; rewrite H' in E; discriminate.
-  cbn. split; [intros [H|H]; discriminate|discriminate].
+  1,2: split; [|intros H; inversion H as [H']; rewrite H' in E; discriminate];
+       intros (Hr & Hq); destruct (is_allow (k_entry c)) eqn:Ea; [|discriminate Hq];
+       destruct (result_of_not_reject (k_entry c) (k_out c) Ea) as (N1 & N2);
+       destruct Hr; contradiction.
+  cbn. split; [intros ([H|H] & _); discriminate|discriminate].
 Qed.
 
 Lemma reject_only_if_over_run : forall cfg base cs c,
@@ -421,7 +427,7 @@ Lemma reject_only_if_over_run : forall cfg base cs c,
   let w := reach cfg base cs in
   let now := w_clock w + k_gap c in
   let o := snd (step cfg w c) in
-  o_res o = RUnavailable \/ o_res o = RFallback ->
+  (o_res o = RUnavailable \/ o_res o = RFallback) /\ o_req o = 0 ->
   let vals := window_vals cfg base (w_marks w) now in
   over cfg (n_total vals) (n_success vals).
 Proof.
@@ -480,24 +486,27 @@ Proof.
 Qed.
 
 Lemma acceptability_table :
-  (* default predicate (err == nil): only a nil error is a success *)
-  (forall e, e = EDo \/ e = EDoFb ->
-     counts_as_success e OOk = true /\ counts_as_success e OErrU = false /\
-     counts_as_success e OErrA = false /\ counts_as_success e OPanic = false) /\
-  (* caller's predicate: nil and the acceptable error are successes; a panic is a failure *)
-  (forall e, e = EDoAcc \/ e = EDoFbAcc ->
-     counts_as_success e OOk = true /\ counts_as_success e OErrU = false /\
-     counts_as_success e OErrA = true /\ counts_as_success e OPanic = false) /\
-  (* the error comes back unchanged, the panic is re-raised *)
+  (* default predicate (err == nil): only a nil error is a success - whatever the error value *)
+  (forall e o, e = EDo \/ e = EDoFb -> (counts_as_success e o = true <-> o = OOk)) /\
+  (* caller's predicate: nil and the errors it accepts (among them a wrapped
+     ErrServiceUnavailable and context.Canceled) are successes; a panic is a failure *)
+  (forall e o, e = EDoAcc \/ e = EDoFbAcc ->
+     (counts_as_success e o = true <-> o = OOk \/ o = OErrA \/ o = OErrSUW \/ o = OCanceled)) /\
+  (* the error comes back unchanged, the panic is re-raised - also when the value is one the
+     breaker itself uses *)
   (forall e, is_allow e = false ->
      result_of e OOk = RNil /\ result_of e OErrU = RErrU /\
-     result_of e OErrA = RErrA /\ result_of e OPanic = RPanic) /\
+     result_of e OErrA = RErrA /\ result_of e OPanic = RPanic /\
+     result_of e OErrSU = RUnavailable /\ result_of e OErrSUW = RErrSUW /\
+     result_of e OCanceled = RCtxDone /\ result_of e ODeadline = RDeadline /\
+     result_of e OErrFB = RFallback /\ result_of e OPanicSU = RPanicSU) /\
   (* promise: Accept is a success, Reject a failure *)
   (forall o, counts_as_success EAllowAccept o = true /\ counts_as_success EAllowReject o = false).
 Proof.
   split; [|split; [|split]].
-  - intros e [H|H]; subst; repeat split; reflexivity.
-  - intros e [H|H]; subst; repeat split; reflexivity.
+  - intros e o [H|H]; subst; destruct o; cbn; split; intros; try discriminate; reflexivity.
+  - intros e o [H|H]; subst; destruct o; cbn; split; intros; try discriminate; try reflexivity; auto;
+      repeat match goal with H : _ \/ _ |- _ => destruct H end; discriminate.
   - intros e H. destruct e; cbn in H; try discriminate; repeat split; reflexivity.
   - intros o. split; reflexivity.
 Qed.
